@@ -1594,4 +1594,84 @@ def r17(F, R):
     R.floor(1)
 
 
-RULES = [("R17", r17, None), ("R16", r16, ["all", "libtest"]), ("R15", r15, ["all", "junit"]), ("R14", r14, None), ("R13", r13, None), ("R12", r12, None), ("R11", r11, None), ("R10", r10, ["all", "json"]), ("R9", r9, None), ("R8", r8, ["all", "junit"]), ("R7", r7, ["all", "json"]), ("R6", r6, ["all", "json"]), ("R5", r5, ["all", "junit"]), ("R1", r1, None), ("R2", r2, None), ("R3", r3, None), ("R4", r4, None)]
+def r18(F, R):
+    """libtest: decorating a test event (`with_stdout`, `with_exec_time`, ..) never changes what kind of event it is — on the table of every
+    `self -> Self` method of `TestEvent` the returned variant is the variant of `self` (a skipped step must not become `failed` because
+    `--show-output` attached its output)."""
+    if F.adt(TE) is None:
+        return
+    from . import deep as D
+    n = 0
+    for b in F.crate_bodies():
+        if (b.impl or {}).get("self_adt") != TE or (b.impl or {}).get("trait") or b.kind not in ("Fn", "AssocFn") or b.arg_count < 1:
+            continue
+        if re.sub(r"<.*", "", b.locals[1].strip()) != TE or re.sub(r"<.*", "", b.locals[0].strip()) not in (TE, "Self"):
+            continue
+        rows = D.Deep(F, b, max_paths=100, inline=False).run()
+        if not rows or any(p.cut for p in rows):
+            continue
+        n += 1
+        bad = None
+        for p in rows:
+            inv = [o for a, o in p.conds if a[0] == "discr" and a[1] in (("arg", 1), ("L", 0, 1))]
+            if D.is_variant(p.ret, TE) and inv and isinstance(inv[0], str):
+                if p.ret[2] not in inv[0].split("|") or "|" in inv[0]:
+                    bad = f"a `{inv[0]}` event comes back as `{p.ret[2]}`"
+            elif p.ret in (("arg", 1), ("L", 0, 1)):
+                pass
+            else:
+                bad = bad or f"returns {D.fmt(b, p.ret)[:50]}"
+        nm = b.short.rsplit("::", 1)[-1]
+        R.check(bad is None, f"libtest/decorator-keeps-kind/{nm}", b, "the event's kind is kept", f"`TestEvent::{nm}`: {bad}: the line emitted no longer agrees with the counters and the suite verdict")
+    R.check(n >= 1, "libtest/decorator-keeps-kind/methods", None, f"{n} decorator(s)", f"no `self -> Self` method of TestEvent found")
+    R.floor(2)
+
+
+def r19(F, R):
+    """libtest: the announced `test_count` is computed from the ParsingFinished event alone (`steps + parser_errors` of the event): the
+    writer's own counters are still zero at that point — ParsingFinished is replayed before the held-back events."""
+    if F.adt(LT) is None:
+        return
+    root, bodies = W.handler_bodies(F, LT)
+    n = 0
+    for b in bodies:
+        for s_, st in b.assigns(lambda st: st["rv"]["k"] == "agg" and st["rv"].get("adt") == "writer::libtest::SuiteEvent" and st["rv"].get("variant") == "Started"):
+            n += 1
+            fl = set()
+            for op in st["rv"]["ops"]:
+                fl |= set(A.deep_slice(F, b, [op]).fields)
+            ev = {n_ for o_, n_ in fl if o_.startswith("event::Cucumber")}
+            own = {n_ for o_, n_ in fl if o_ == LT}
+            R.check({"steps", "parser_errors"} <= ev and not own, "libtest/test-count-from-event", s_, "test_count = steps + parser_errors of the ParsingFinished event",
+                    f"the announced test_count is computed from {sorted(ev)} of the event and the writer's own {sorted(own)}: it does not count what will be reported")
+    R.check(n == 1, "libtest/test-count-from-event/site", root, "", f"{n} SuiteEvent::Started constructions")
+    # a parser error without a usable path is numbered by the writer's own counter of parser errors — the one the same path advances (another
+    # counter stands still between two such errors: they would share one name — two `started` lines, two results, one name)
+    from . import deep as D
+    from .termtypes import Typer
+    exp = [b for b in bodies if any(True for _ in b.assigns(lambda st: st["rv"]["k"] == "agg" and st["rv"].get("adt") == "writer::libtest::SuiteEvent" and st["rv"].get("variant") == "Started"))]
+    if len(exp) == 1:
+        b = exp[0]
+        ctor_names = {cb.name for cb in test_event_ctors(F).values()}
+        dp = D.Deep(F, b, inline=False, max_paths=3000)
+        T = Typer(F, b, dp)
+        n_err, bad = 0, None
+        for p in dp.run():
+            if not any(a[0] == "discr" and o == "Err" and dp.adt_of.get(a, "") == "std::result::Result" for a, o in p.conds):
+                continue
+            named = [e for e in p.effects if e[0] == "call" and e[1] in ctor_names]
+            if not named:
+                continue
+            n_err += 1
+            written = {(T.path(("ref", e[1])) or "") for e in p.effects if e[0] == "write"}
+            for e in named:
+                used = {r for r in T.roots(e[2][0]) if r.startswith("self.")}
+                extra = {u for u in used if not any(w == u or w.startswith(u + ".") or u.startswith(w + ".") for w in written)}
+                if extra:
+                    bad = f"the name of a parser-error test is numbered by {sorted(extra)}, which this path does not advance (it writes {sorted(w for w in written if w)})"
+        R.check(bad is None and n_err >= 1, "libtest/parser-error-numbered-by-own-counter", b, "numbered by the counter the same path advances",
+                (bad or "no parser-error path found") + ": consecutive path-less parser errors get the same name")
+    R.floor(2)
+
+
+RULES = [("R19", r19, ["all", "libtest"]), ("R18", r18, ["all", "libtest"]), ("R17", r17, None), ("R16", r16, ["all", "libtest"]), ("R15", r15, ["all", "junit"]), ("R14", r14, None), ("R13", r13, None), ("R12", r12, None), ("R11", r11, None), ("R10", r10, ["all", "json"]), ("R9", r9, None), ("R8", r8, ["all", "junit"]), ("R7", r7, ["all", "json"]), ("R6", r6, ["all", "json"]), ("R5", r5, ["all", "junit"]), ("R1", r1, None), ("R2", r2, None), ("R3", r3, None), ("R4", r4, None)]
